@@ -663,6 +663,7 @@ func (obj *DenseInt8MatrixJointIterator) Ok() bool {
          !(obj.s2 == nil || obj.s2.GetInt8() == int8(0))
 }
 func (obj *DenseInt8MatrixJointIterator) Next() {
+next:
   ok1 := obj.it1.Ok()
   ok2 := obj.it2.Ok()
   obj.s1.ptr = nil
@@ -682,6 +683,8 @@ func (obj *DenseInt8MatrixJointIterator) Next() {
       obj.s2 = obj.it2.GetConst()
     }
   }
+  // true if at least one iterator is advanced below
+  advanced := obj.s1.ptr != nil || obj.s2 != nil
   if obj.s1.ptr != nil {
     obj.it1.Next()
   }
@@ -689,6 +692,11 @@ func (obj *DenseInt8MatrixJointIterator) Next() {
     obj.it2.Next()
   } else {
     obj.s2 = ConstInt8(0.0)
+  }
+  // skip positions where all elements are zero, stop only when
+  // all iterators are exhausted
+  if !obj.Ok() && advanced {
+    goto next
   }
 }
 func (obj *DenseInt8MatrixJointIterator) Get() (Scalar, ConstScalar) {
